@@ -107,3 +107,15 @@ fn c11_shape_lt_space_eq_is_not_le() {
     }
     kani::cover!(true);
 }
+
+// ---- unary ! (parse_p2 and parse_leaf real; only the parenthesis recursion into parse_p12 is cut) -------------------------
+shape!(c11_shape_not, parse_p2, parse_p12, |a, b, c| [Token::ExclamationPoint, lit(a)], b2i(a == 0));
+// !!a is 0 or 1, never a itself
+shape!(c11_shape_not_not, parse_p2, parse_p12, |a, b, c| [Token::ExclamationPoint, Token::ExclamationPoint, lit(a)], b2i(a != 0));
+shape!(c11_shape_not_not_not, parse_p2, parse_p12, |a, b, c| [Token::ExclamationPoint, Token::ExclamationPoint, Token::ExclamationPoint, lit(a)], b2i(a == 0));
+// !a == b  is  (!a) == b
+shape!(c11_prec_not_eq, parse_p7, parse_p12, |a, b, c| [Token::ExclamationPoint, lit(a), Token::EqualsEquals, lit(b)], b2i(b2i(a == 0) == b));
+// !!a == b  is  (!!a) == b
+shape!(c11_prec_not_not_eq, parse_p7, parse_p12, |a, b, c| [Token::ExclamationPoint, Token::ExclamationPoint, lit(a), Token::EqualsEquals, lit(b)], b2i(b2i(a != 0) == b));
+// a < !b  is  a < (!b)
+shape!(c11_prec_lt_not, parse_p6, parse_p12, |a, b, c| [lit(a), Token::LeftAngleBracket(Spaced), Token::ExclamationPoint, lit(b)], b2i(a < b2i(b == 0)));
